@@ -1,6 +1,6 @@
-import json
 from mindsdb_sql.parser.ast.base import ASTNode
-from mindsdb_sql.parser.utils import indent
+from mindsdb_sql.parser.ast.select.constant import Constant
+from mindsdb_sql.parser.utils import indent, kw_value_to_string
 
 
 class CreateDatabase(ASTNode):
@@ -44,11 +44,11 @@ class CreateDatabase(ASTNode):
             replace_str = f' OR REPLACE'
 
         engine_str = ''
-        if self.engine:
-            engine_str = f'ENGINE = {repr(self.engine)} '
+        if self.engine is not None:
+            engine_str = f'ENGINE = {Constant(self.engine).to_string()} '
 
         parameters_str = ''
         if self.parameters:
-            parameters_str = f', PARAMETERS = {json.dumps(self.parameters)}'
+            parameters_str = f', PARAMETERS = {kw_value_to_string(self.parameters)}'
         out_str = f'CREATE{replace_str} DATABASE {"IF NOT EXISTS " if self.if_not_exists else ""}{self.name.to_string()} {engine_str}{parameters_str}'
         return out_str
